@@ -253,6 +253,11 @@ class Gen:
         strict = 1 if (r.random() < (0.35 if fs.get("ownnames") else 0.15) and all(x["t"] == "none" for x in defaults + pp)) else 0
         inner["strict"] = bool(strict) or bool(fs.get("strict"))
         body = self.stmts(d, inner, top=True)
+        if kind == "named" and r.random() < 0.25:
+            # the function's own name is referenced from direct eval code only (also when the parameter list is not simple)
+            ev = N("evalcode", k=[N("expr", k=[N("log", k=[N("typeof", x=name)])]), N("expr", k=[N("log", k=[N("ref", x=name)])])])
+            body.insert(r.randint(0, len(body)), ev if r.random() < 0.6 else
+                        N("expr", k=[N("call", k=[N("fn", x="", kind="arrow", p=[], d=[], pp=[], s=0, k=[ev])])]))
         if kind == "named" and r.random() < 0.3:
             # strict code nested in the (possibly sloppy) function assigns to the function's own name, in statement position
             asg = r.choice([N("assign", x=name, k=[N("num", n=r.randint(0, 3))]), N("addassign", x=name, k=[N("num", n=1)]), N("postinc", x=name)])
@@ -603,6 +608,11 @@ def has_top_return(stmts):
     return False
 
 
+def mem(base, key, o):
+    """a property reference: dot form, or (variant compkey) a computed key whose value the compiler cannot see"""
+    return "(%s)[KEY_%s]" % (base, key) if o.get("compkey") else "(%s).%s" % (base, key)
+
+
 def pe(e, o):
     t = e["t"]
     if t == "num":
@@ -630,12 +640,12 @@ def pe(e, o):
     if t == "this":
         return "this"
     if t == "mset":
-        return "((%s).%s = %s)" % (pe(e["k"][0], o), e["x"], pe(e["k"][1], o))
+        return "(%s = %s)" % (mem(pe(e["k"][0], o), e["x"], o), pe(e["k"][1], o))
     if t == "maddassign":
-        return "((%s).%s += %s)" % (pe(e["k"][0], o), e["x"], pe(e["k"][1], o))
+        return "(%s += %s)" % (mem(pe(e["k"][0], o), e["x"], o), pe(e["k"][1], o))
     if t == "mincdec":
         sym = "++" if e["n"] == 1 else "--"
-        return "(%s(%s).%s)" % (sym, pe(e["k"][0], o), e["x"]) if e["op"] == "pre" else "((%s).%s%s)" % (pe(e["k"][0], o), e["x"], sym)
+        return "(%s%s)" % (sym, mem(pe(e["k"][0], o), e["x"], o)) if e["op"] == "pre" else "(%s%s)" % (mem(pe(e["k"][0], o), e["x"], o), sym)
     if t == "classe":
         return "(%s)" % pclass(e, o, 0)
     if t == "supercall":
@@ -643,7 +653,7 @@ def pe(e, o):
     if t == "new":
         return "new (%s)(%s)" % (pe(e["k"][0], o), ", ".join(pe(a, o) for a in e["k"][1:]))
     if t == "mcall":
-        return "(%s).%s(%s)" % (pe(e["k"][0], o), e["x"], ", ".join(pe(a, o) for a in e["k"][1:]))
+        return "%s(%s)" % (mem(pe(e["k"][0], o), e["x"], o), ", ".join(pe(a, o) for a in e["k"][1:]))
     if t == "objlit":
         parts = []
         for pr in e["k"]:
@@ -655,7 +665,7 @@ def pe(e, o):
                 parts.append("%s: %s" % (pr["x"], pe(pr["k"][0], o)))
         return "({%s})" % ", ".join(parts)
     if t == "mget":
-        return "(%s).%s" % (pe(e["k"][0], o), e["x"])
+        return mem(pe(e["k"][0], o), e["x"], o)
     if t == "passign":
         return "(%s = %s)" % (ppat(e["pat"], o), pe(e["k"][0], o))
     if t == "logassign":
@@ -785,7 +795,7 @@ def ps(stmts, o, ind):
 
 
 VARIANTS = ["base", "closure", "evaldyn", "with", "exprpos", "deadcode", "constvar", "block", "iife", "arrowiife", "tostring", "evalplace",
-            "evalbody", "global"]
+            "evalbody", "global", "compkey"]
 
 
 def top_eval_vars(stmts):
@@ -840,10 +850,12 @@ def applicable(prog, v):
 def print_js(prog, variant="base"):
     """Returns (pre, src, mode): mode 0 = call f() (mjsrun mode 0), 2 = the script itself is the program (global placement)."""
     o = {}
-    if variant in ("closure", "evaldyn", "exprpos", "deadcode", "constvar"):
+    if variant in ("closure", "evaldyn", "exprpos", "deadcode", "constvar", "compkey"):
         o[variant] = True
     top = dict(k=prog["body"], s=prog["strict"])
     consts = "var K0 = 0, K1 = 1, K2 = 2, K3 = 3;\n" if variant == "constvar" else ""
+    if variant == "compkey":
+        consts = 'var KEY_a = "a", KEY_b = "b", KEY_x = "x", KEY_y = "y";\n'
     if variant == "global":
         src = ('"use strict";\n' if prog["strict"] else "") + ps(prog["body"], o, 0)
         return PRE, src, 2
